@@ -46,6 +46,9 @@ NAME_GRAMMARS = [
     ("silent-self-recursion", 'p = _{ "a" ~ p ~ "b" | "1" }\nr = { p }\nq = { (!p ~ ANY)* ~ p }\n', ("r", "q")),
     ("normal-recursion", 'p = { "a" ~ p? ~ "b" }\ns = _{ p | "1" }\nr = @{ (!s ~ ANY)* ~ s }\n', ("r", "p")),
     ("silent-chain", 'a = _{ b ~ "1" }\nb = _{ c | "a" }\nc = _{ "b" ~ "b" }\nr = { a+ }\n', ("r",)),
+    # case insensitive literals against letters whose Unicode case folding reaches ASCII (pest ignores ASCII case only),
+    # an empty insensitive literal in a choice
+    ("case-folding", 'r = { (^"ss" | ^"x")+ }\nq = { (^"s" | ^"k" | "!")+ }\nt = { (^"" | "sk") ~ "s"? }\nu = { ^"k" ~ ^"ss"? }\n', ("r", "q", "t", "u"), "sSkK\u00df\u017f\u212a!x", 3),
 ]
 
 
@@ -189,8 +192,10 @@ def build_specs(tier: str):
         wide.extend(families.batch_specs(starts, families.TRIVIA[tv] + HELPERS, families.inputs(sigma, L), "zero", f"explicit-trivia({tv})"))
     names = []
     ins = families.inputs("ab1 #\t\n", 3) + families.inputs("ab1", 4)[40:]
-    for label, text, starts in NAME_GRAMMARS:
-        s = engine.Spec((), starts, ins, "zero", f"names({label})")
+    for entry in NAME_GRAMMARS:
+        label, text, starts = entry[:3]
+        own = families.inputs(entry[3], entry[4]) if len(entry) > 3 else ins
+        s = engine.Spec((), starts, own, "zero", f"names({label})")
         s._text = text
         s.raw = True
         names.append(s)
